@@ -101,6 +101,29 @@ def _arg_variants(case):
                                  "flat": [x for r in st["rows"] for x in r],
                                  "lengths": [len(r) for r in st["rows"]]}
             yield new
+        if st["op"] == "new_flat" and st["lengths"]:
+            # drop one row (and the matching element of boolean row masks applied directly to this array)
+            lens = st["lengths"]
+            offs = [sum(lens[:k]) for k in range(len(lens) + 1)]
+            for r in range(len(lens) - 1, -1, -1):
+                new = copy.deepcopy(case)
+                new["program"][i]["lengths"] = lens[:r] + lens[r + 1:]
+                new["program"][i]["flat"] = st["flat"][:offs[r]] + st["flat"][offs[r + 1]:]
+                for other in new["program"]:
+                    if other.get("src") == st["dst"] or other.get("tgt") == st["dst"]:
+                        ix = other.get("ix")
+                        if ix and ix[0] == "mask" and len(ix[1]) == len(lens):
+                            ix[1] = ix[1][:r] + ix[1][r + 1:]
+                        elif ix and ix[0] == "tup" and ix[1][0] == "mask" and len(ix[1][1]) == len(lens):
+                            ix[1][1] = ix[1][1][:r] + ix[1][1][r + 1:]
+                yield new
+            # shorten one row by its last element
+            for r in range(len(lens) - 1, -1, -1):
+                if lens[r] > 0:
+                    new = copy.deepcopy(case)
+                    new["program"][i]["lengths"] = lens[:r] + [lens[r] - 1] + lens[r + 1:]
+                    new["program"][i]["flat"] = st["flat"][:offs[r + 1] - 1] + st["flat"][offs[r + 1]:]
+                    yield new
         if st["op"] == "new_flat" and st["flat"]:
             dt = st["dtype"]
             if dt != "bool" and not dt.startswith("float"):
@@ -121,7 +144,7 @@ def _arg_variants(case):
                     pass
 
 
-def minimise(case, budget=400):
+def minimise(case, budget=1500):
     """Returns (minimised case, divergence, evaluations used)."""
     used = [0]
     want_hf = bool(case.get("hazard_free"))
